@@ -108,31 +108,21 @@ impl<Wr: Write> XmlSerializer<Wr> {
         }
     }
 
-    #[inline(always)]
-    fn qual_name(&mut self, name: &QualName) -> io::Result<()> {
-        self.find_or_insert_ns(name);
-        write_qual_name(&mut self.writer, name)
-    }
-
-    #[inline(always)]
-    fn qual_attr_name(&mut self, name: &QualName) -> io::Result<()> {
-        self.find_or_insert_ns(name);
-        write_qual_name(&mut self.writer, name)
-    }
-
+    /// Is the prefix of `name` bound to its namespace by the declarations in scope?
     fn find_uri(&self, name: &QualName) -> bool {
-        let mut found = false;
         for stack in self.namespace_stack.0.iter().rev() {
-            if let Some(Some(el)) = stack.get(&name.prefix) {
-                found = *el == name.ns;
-                break;
+            match stack.get(&name.prefix) {
+                Some(Some(el)) => return *el == name.ns,
+                Some(None) => return name.ns.is_empty(),
+                None => (),
             }
         }
-        found
+        // Nothing in scope: only an unprefixed name in no namespace needs no declaration.
+        name.prefix.is_none() && name.ns.is_empty()
     }
 
     fn find_or_insert_ns(&mut self, name: &QualName) {
-        if (name.prefix.is_some() || !name.ns.is_empty()) && !self.find_uri(name) {
+        if !self.find_uri(name) {
             if let Some(last_ns) = self.namespace_stack.0.last_mut() {
                 last_ns.insert(name);
             }
@@ -149,8 +139,18 @@ impl<Wr: Write> Serializer for XmlSerializer<Wr> {
     {
         self.namespace_stack.push(NamespaceMap::empty());
 
+        // Register the namespaces used by the element and by its attributes
+        // before the declarations are written.
+        let attrs: Vec<AttrRef<'a>> = attrs.collect();
+        self.find_or_insert_ns(&name);
+        for (attr_name, _) in &attrs {
+            if attr_name.prefix.is_some() {
+                self.find_or_insert_ns(attr_name);
+            }
+        }
+
         self.writer.write_all(b"<")?;
-        self.qual_name(&name)?;
+        write_qual_name(&mut self.writer, &name)?;
         if let Some(current_namespace) = self.namespace_stack.0.last() {
             for (prefix, url_opt) in current_namespace.get_scope_iter() {
                 self.writer.write_all(b" xmlns")?;
@@ -171,7 +171,7 @@ impl<Wr: Write> Serializer for XmlSerializer<Wr> {
         }
         for (name, value) in attrs {
             self.writer.write_all(b" ")?;
-            self.qual_attr_name(name)?;
+            write_qual_name(&mut self.writer, name)?;
             self.writer.write_all(b"=\"")?;
             write_to_buf_escaped(&mut self.writer, value, true)?;
             self.writer.write_all(b"\"")?;
@@ -184,7 +184,7 @@ impl<Wr: Write> Serializer for XmlSerializer<Wr> {
     fn end_elem(&mut self, name: QualName) -> io::Result<()> {
         self.namespace_stack.pop();
         self.writer.write_all(b"</")?;
-        self.qual_name(&name)?;
+        write_qual_name(&mut self.writer, &name)?;
         self.writer.write_all(b">")
     }
 
